@@ -301,6 +301,35 @@ theorem round_trip_in_history_bytes (h : Store) (bs : Bytes) (hl : bs.length = 1
   simp only [decodeAsBytes, hd, bitsToBytes_bytesToBits octets_ok bs hb]
   rfl
 
+/-! ## error paths: a call that raises leaves nothing behind
+
+In the store model a refused call hands out `Obj.raised` and — like every call — touches no object and no
+state (`HOp.run_call`, `held_object_stable`); `round_trip_in_history` therefore holds after any prefix `h`
+that contains refused calls.  The special case the hardening round asks for, spelled out: the FIRST call of a
+process is an arbitrary one (any of the 13 callables on any argument object, refused or answered), then the
+property.  The correspondence run executes such histories on the real code for every callable and every class
+of refused / unusual argument (`error-path` histories of `harness/props/c10.py`). -/
+
+theorem round_trip_after_refused_first_call (o : Obj) (f : Fn) (b : Bits) (hb : b.length = 144) :
+    ∃ s, s.length = 196
+      ∧ (runOps (runOps Store.empty [.new o, .call f 0]) [.new (.bits false b), .call .encode 2]).read 3
+          = some (.bits false s)
+      ∧ (runOps (runOps Store.empty [.new o, .call f 0])
+          [.new (.bits false b), .call .encode 2, .call .decode 3]).read 4 = some (.bits false b) := by
+  have hsz := size_first_call o f
+  obtain ⟨s, hl, h1, h2⟩ := round_trip_in_history (runOps Store.empty [.new o, .call f 0]) b hb [] (by simp)
+  rw [hsz] at h1 h2
+  refine ⟨s, hl, by simpa [runOps] using h1, ?_⟩
+  have hsz2 : (runOps (runOps Store.empty [.new o, .call f 0])
+      [.new (.bits false b), .call .encode 2]).size = 4 := by
+    have := (runOps_new_call (runOps Store.empty [.new o, .call f 0]) (.bits false b) .encode).1
+    rw [hsz] at this
+    exact this
+  simp only [runOps, List.foldl_nil] at h2 hsz2
+  simp only [runOps, List.foldl_cons, List.foldl_nil]
+  rw [hsz2] at h2
+  exact h2
+
 /-! ## outside the property's assumption: a little-endian bitarray argument
 
 `bits_to_tribits` uses `ba2int` on slices, which honours the endianness of the caller's bitarray,
@@ -374,6 +403,21 @@ def historyWitness : Bool :=
   | _, _, _, _, _, _ => false
 
 example : historyWitness = true := by decide +kernel
+
+/-- an error-path history evaluated by the kernel: the first call is `tribits_to_points([3, 5, 9, 2])`, which
+walks two valid non-zero tribits, accepts the out-of-row subscript 9 and then runs off the table (`IndexError`
+with the encoder in a non-zero state); the block encoded next decodes to itself, and the refused call is
+refused in the same way afterwards -/
+def errorPathWitness : Bool :=
+  let b := bytesToBits sampleOctets
+  let h := runOps Store.empty
+    [.new (.nats [3, 5, 9, 2]), .call .tribitsToPoints 0, .new (.bits false b), .call .encode 2, .call .decode 3,
+     .call .tribitsToPoints 0]
+  match h.read 1, h.read 4, h.read 5 with
+  | some (.raised e1), some (.bits _ d), some (.raised e2) => d == b && h.size == 6 && e1 == e2
+  | _, _, _ => false
+
+example : errorPathWitness = true := by decide +kernel
 
 /-- a little-endian bitarray argument really differs: `110…` comes back as `011…` -/
 example : rev3 (bytesToBits sampleOctets) ≠ bytesToBits sampleOctets := by decide +kernel
